@@ -64,6 +64,7 @@ type Param struct {
 	Loc  string // path | query | header | urlform | multiform | form (either, by the media type of the call) | file | body
 	Kind string // scalar | multi | file | body (JSON object / array) | strbody (a string, sent as JSON or as text)
 	Type string // string | integer | boolean | object | array
+	Req  bool   // declared required (path parameters always are)
 }
 
 type Op struct {
@@ -81,6 +82,21 @@ type Op struct {
 type API struct {
 	Base string
 	Ops  []Op
+	// the apiKey security scheme of secured operations ("" = header X-Token, plain authenticator)
+	KeyIn   string // header | query
+	KeyName string
+	KeyCtx  bool // served with security.APIKeyAuthCtx instead of security.APIKeyAuth
+}
+
+func (a API) key() (in, name string) {
+	in, name = a.KeyIn, a.KeyName
+	if in == "" {
+		in = "header"
+	}
+	if name == "" {
+		name = "X-Token"
+	}
+	return in, name
 }
 
 type Arg struct {
@@ -124,6 +140,7 @@ type Step struct {
 	Media     string // media type of the request body ("" = the operation has none)
 	Debug     bool   // Runtime.Debug is on for this call (dumps go to a silent logger)
 	PatStatic []KV   // static query parameters written into the operation's path pattern
+	Before    string // "" | a customisation (see customise) of ANOTHER Runtime the application creates right before this call
 }
 
 // Batch describes the calls of a concurrent case compactly: Count calls of Op, call i with values of its own derived from (Seed, i).
@@ -137,8 +154,9 @@ type Case struct {
 	API        API
 	Shared     bool // served by the long-lived server of this API (single calls); otherwise by a server built for the case
 	Steps      []Step
-	BaseStatic []KV // static query parameters written into the Runtime's base path
-	Reuse      bool // Runtime.EnableConnectionReuse()
+	BaseStatic []KV   // static query parameters written into the Runtime's base path
+	Reuse      bool   // Runtime.EnableConnectionReuse()
+	PreCustom  string // "" | a customisation of another Runtime created BEFORE the session's Runtime
 	// concurrent cases: the calls (Batch) are made by Conc goroutines at a time through the one Runtime, at GOMAXPROCS Procs
 	Conc  int
 	Procs int
@@ -165,7 +183,9 @@ func kvFrom(v any) []KV {
 	return out
 }
 
-func (p Param) JSON() M { return M{"name": p.Name, "loc": p.Loc, "kind": p.Kind, "type": p.Type} }
+func (p Param) JSON() M {
+	return M{"name": p.Name, "loc": p.Loc, "kind": p.Kind, "type": p.Type, "req": p.Req}
+}
 
 func (c Case) JSON() M {
 	ops := make([]M, 0)
@@ -196,14 +216,14 @@ func (c Case) JSON() M {
 		for _, h := range st.Resp.Hdrs {
 			hdrs = append(hdrs, M{"k": h.K, "vs": trace.BB(h.Vs)})
 		}
-		steps = append(steps, M{"op": st.Op, "args": args, "auth": st.Auth, "media": st.Media, "debug": st.Debug, "pstatic": kvJSON(st.PatStatic),
+		steps = append(steps, M{"op": st.Op, "args": args, "auth": st.Auth, "media": st.Media, "debug": st.Debug, "pstatic": kvJSON(st.PatStatic), "before": st.Before,
 			"resp": M{"mode": st.Resp.Mode, "code": st.Resp.Code, "hdrs": hdrs, "len": st.Resp.Len, "seed": st.Resp.Seed, "none": st.Resp.None,
 				"chunks": st.Resp.Chunks, "pause_us": st.Resp.PauseUs}})
 	}
 	if c.Batch.Count > 0 {
 		steps = []M{} // derived from the batch description
 	}
-	return M{"kind": "session", "api": M{"base": c.API.Base, "ops": ops}, "shared": c.Shared, "steps": steps, "bstatic": kvJSON(c.BaseStatic), "reuse": c.Reuse,
+	return M{"kind": "session", "api": M{"base": c.API.Base, "ops": ops, "key_in": c.API.KeyIn, "key_name": c.API.KeyName, "key_ctx": c.API.KeyCtx}, "shared": c.Shared, "steps": steps, "bstatic": kvJSON(c.BaseStatic), "reuse": c.Reuse, "precustom": c.PreCustom,
 		"conc": c.Conc, "procs": c.Procs, "yield": c.Yield, "via": c.Via, "gate": c.Gate, "batch": M{"op": c.Batch.Op, "count": c.Batch.Count, "seed": c.Batch.Seed}}
 }
 
@@ -211,6 +231,7 @@ func caseFrom(d M) Case {
 	var c Case
 	a := drv.Map(d["api"])
 	c.API.Base = drv.Str(a["base"])
+	c.API.KeyIn, c.API.KeyName, c.API.KeyCtx = drv.Str(a["key_in"]), drv.Str(a["key_name"]), drv.Bool(a["key_ctx"])
 	for _, o := range drv.List(a["ops"]) {
 		m := drv.Map(o)
 		op := Op{ID: drv.Str(m["id"]), Method: drv.Str(m["method"]), Consumes: drv.Str(m["consumes"]), Secured: drv.Bool(m["secured"]), Success: drv.Int(m["success"])}
@@ -227,7 +248,7 @@ func caseFrom(d M) Case {
 		}
 		for _, p := range drv.List(m["params"]) {
 			pm := drv.Map(p)
-			op.Params = append(op.Params, Param{Name: drv.Str(pm["name"]), Loc: drv.Str(pm["loc"]), Kind: drv.Str(pm["kind"]), Type: drv.Str(pm["type"])})
+			op.Params = append(op.Params, Param{Name: drv.Str(pm["name"]), Loc: drv.Str(pm["loc"]), Kind: drv.Str(pm["kind"]), Type: drv.Str(pm["type"]), Req: drv.Bool(pm["req"])})
 		}
 		for _, p := range drv.List(m["produces"]) {
 			op.Produces = append(op.Produces, drv.Str(p))
@@ -237,7 +258,7 @@ func caseFrom(d M) Case {
 	c.Shared = drv.Bool(d["shared"])
 	for _, sx := range drv.List(d["steps"]) {
 		sm := drv.Map(sx)
-		st := Step{Op: drv.Str(sm["op"]), Auth: drv.Str(sm["auth"]), Media: drv.Str(sm["media"]), Debug: drv.Bool(sm["debug"]), PatStatic: kvFrom(sm["pstatic"])}
+		st := Step{Op: drv.Str(sm["op"]), Auth: drv.Str(sm["auth"]), Media: drv.Str(sm["media"]), Debug: drv.Bool(sm["debug"]), PatStatic: kvFrom(sm["pstatic"]), Before: drv.Str(sm["before"])}
 		for _, x := range drv.List(sm["args"]) {
 			m := drv.Map(x)
 			arg := Arg{Name: drv.Str(m["name"]), FileName: trace.Str(m["filename"]), Len: drv.Int(m["len"]), Seed: drv.Int(m["seed"]),
@@ -260,7 +281,7 @@ func caseFrom(d M) Case {
 		}
 		c.Steps = append(c.Steps, st)
 	}
-	c.BaseStatic, c.Reuse = kvFrom(d["bstatic"]), drv.Bool(d["reuse"])
+	c.BaseStatic, c.Reuse, c.PreCustom = kvFrom(d["bstatic"]), drv.Bool(d["reuse"]), drv.Str(d["precustom"])
 	c.Conc, c.Procs, c.Yield, c.Via, c.Gate = drv.Int(d["conc"]), drv.Int(d["procs"]), drv.Bool(d["yield"]), drv.Str(d["via"]), drv.Int(d["gate"])
 	if b := drv.Map(d["batch"]); b != nil {
 		c.Batch = Batch{Op: drv.Str(b["op"]), Count: drv.Int(b["count"]), Seed: drv.Int(b["seed"])}
@@ -293,6 +314,9 @@ func (p Param) spec() M {
 		m["in"], m["required"] = "path", true
 	case "query", "header":
 		m["in"] = p.Loc
+		if p.Req {
+			m["required"] = true
+		}
 	case "urlform", "multiform", "form", "file":
 		m["in"] = "formData"
 	case "body":
@@ -341,7 +365,8 @@ func (a API) doc() []byte {
 	doc := M{"swagger": "2.0", "info": M{"title": "c04", "version": "1"}, "basePath": a.Base,
 		"consumes": []string{"application/json"}, "produces": []string{"application/json"}, "paths": paths}
 	if secured {
-		doc["securityDefinitions"] = M{"key": M{"type": "apiKey", "in": "header", "name": "X-Token"}}
+		in, name := a.key()
+		doc["securityDefinitions"] = M{"key": M{"type": "apiKey", "in": in, "name": name}}
 	}
 	raw, err := json.Marshal(doc)
 	if err != nil {
@@ -699,12 +724,21 @@ func buildFresh(a API, raw []byte) (*built, error) {
 	api.RegisterConsumer("text/plain", textAny)
 	api.RegisterProducer("text/plain", runtime.TextProducer())
 	api.RegisterProducer("application/octet-stream", runtime.ByteStreamProducer())
-	api.RegisterAuth("key", security.APIKeyAuth("X-Token", "header", func(tok string) (interface{}, error) {
+	keyIn, keyName := a.key()
+	checkKey := func(tok string) (interface{}, error) {
 		if tok == secret {
 			return "principal", nil
 		}
 		return nil, fmt.Errorf("bad token")
-	}))
+	}
+	if a.KeyCtx {
+		api.RegisterAuth("key", security.APIKeyAuthCtx(keyName, keyIn, func(ctx context.Context, tok string) (context.Context, interface{}, error) {
+			p, err := checkKey(tok)
+			return ctx, p, err
+		}))
+	} else {
+		api.RegisterAuth("key", security.APIKeyAuth(keyName, keyIn, checkKey))
+	}
 	for _, o := range a.Ops {
 		o := o
 		api.RegisterOperation(o.Method, o.path(), runtime.OperationHandlerFunc(func(params interface{}) (interface{}, error) {
@@ -790,12 +824,15 @@ func server() *httptest.Server {
 
 // ---- one session ----------------------------------------------------------------------
 
-type signing struct{}
+type signing struct{ in, name string }
 
-func (signing) AuthenticateRequest(r runtime.ClientRequest, _ strfmt.Registry) error {
+func (s signing) AuthenticateRequest(r runtime.ClientRequest, _ strfmt.Registry) error {
 	_ = r.GetBody() // a signing writer looks at the body (twice)
 	_ = r.GetBody()
-	return r.SetHeaderParam("X-Token", secret)
+	if s.in == "query" {
+		return r.SetQueryParam(s.name, secret)
+	}
+	return r.SetHeaderParam(s.name, secret)
 }
 
 type silentLogger struct{}
@@ -939,6 +976,31 @@ func mediaName(mt string) string {
 	return "none"
 }
 
+// customise changes the codec tables of a Runtime, as an application does for a gateway that wants another wire format.
+func customise(rt *client.Runtime, what string) {
+	broken := runtime.ConsumerFunc(func(io.Reader, interface{}) error { return fmt.Errorf("c04: codec of another Runtime") })
+	switch what {
+	case "envelope": // JSON and text bodies are wrapped, responses are not understood
+		rt.Producers[mJSON] = runtime.ProducerFunc(func(w io.Writer, v interface{}) error {
+			return runtime.JSONProducer().Produce(w, map[string]interface{}{"envelope": v})
+		})
+		rt.Producers[mText] = runtime.ProducerFunc(func(w io.Writer, v interface{}) error {
+			_, err := fmt.Fprintf(w, "<<%v>>", v)
+			return err
+		})
+		rt.Consumers[mJSON] = broken
+	case "consumers":
+		rt.Consumers[mJSON], rt.Consumers[mText], rt.Consumers[mBin] = broken, broken, broken
+	case "delete":
+		delete(rt.Producers, mJSON)
+		delete(rt.Producers, mText)
+		delete(rt.Consumers, mJSON)
+	case "swap":
+		rt.Producers[mJSON], rt.Producers[mText] = runtime.TextProducer(), runtime.JSONProducer()
+		rt.Consumers[mJSON], rt.Consumers[mText] = runtime.TextConsumer(), runtime.JSONConsumer()
+	}
+}
+
 // staticQuery renders static query parameters as they are written into a base path or a path pattern
 func staticQuery(kvs []KV) string {
 	if len(kvs) == 0 {
@@ -985,6 +1047,21 @@ func execute(c *drv.Ctx, d M) bool {
 	active.mu.Lock()
 	active.h = b.handler
 	active.mu.Unlock()
+	// other Runtimes of the application: created and customised (their own codec tables) before / while the session's
+	// Runtime is used; they make no calls
+	var others []*client.Runtime
+	another := func(when string, step int, what string) {
+		o := client.New(s.Listener.Addr().String(), cs.API.Base, []string{"http"})
+		customise(o, what)
+		if len(others) > 0 { // ... and an existing one is customised once more
+			customise(others[0], what)
+		}
+		others = append(others, o)
+		c.W.Event("customise", M{"when": when, "step": step, "what": what})
+	}
+	if cs.PreCustom != "" {
+		another("before-runtime", 0, cs.PreCustom)
+	}
 	// one Runtime for the whole session
 	rt := client.New(s.Listener.Addr().String(), cs.API.Base+staticQuery(cs.BaseStatic), []string{"http"})
 	rt.Consumers["application/octet-stream"] = runtime.ByteStreamConsumer()
@@ -1013,11 +1090,14 @@ func execute(c *drv.Ctx, d M) bool {
 				noEvent(i, *st)
 				continue
 			}
+			if st.Before != "" {
+				another("before-step", i+1, st.Before)
+			}
 			x := newExchange(i+1, st)
 			seqMu.Lock()
 			seq = x
 			seqMu.Unlock()
-			ev, ok := exchangeOnce(rt, x, op, false)
+			ev, ok := exchangeOnce(rt, &cs.API, x, op, false)
 			c.W.Event("exchange", ev)
 			if ok {
 				nontrivial = true
@@ -1065,7 +1145,7 @@ func execute(c *drv.Ctx, d M) bool {
 				if op == nil {
 					continue
 				}
-				evs[i], oks[i] = exchangeOnce(rt, x, op, true)
+				evs[i], oks[i] = exchangeOnce(rt, &cs.API, x, op, true)
 			}
 		}()
 	}
@@ -1086,7 +1166,7 @@ func execute(c *drv.Ctx, d M) bool {
 }
 
 // exchangeOnce makes the call x.step of operation op through rt and returns its event.
-func exchangeOnce(rt *client.Runtime, cur *exchange, op *Op, concurrent bool) (M, bool) {
+func exchangeOnce(rt *client.Runtime, api *API, cur *exchange, op *Op, concurrent bool) (M, bool) {
 	st, idx := cur.step, cur.idx-1
 
 	params := map[string]Param{}
@@ -1217,11 +1297,12 @@ func exchangeOnce(rt *client.Runtime, cur *exchange, op *Op, concurrent bool) (M
 	if concurrent {
 		cop.Context = context.WithValue(context.Background(), callKey{}, cur.idx)
 	}
+	keyIn, keyName := api.key()
 	switch st.Auth {
 	case "apikey":
-		cop.AuthInfo = client.APIKeyAuth("X-Token", "header", secret)
+		cop.AuthInfo = client.APIKeyAuth(keyName, keyIn, secret)
 	case "signing":
-		cop.AuthInfo = signing{}
+		cop.AuthInfo = signing{keyIn, keyName}
 	}
 	var callErr error
 	func() {
@@ -1344,6 +1425,9 @@ func mkStep(op Op, override map[string]Arg, auth string, resp Resp, media string
 	st := Step{Op: op.ID, Auth: auth, Resp: resp, Media: media}
 	if op.Secured && auth == "none" {
 		st.Auth = "apikey"
+	}
+	if auth == "param" { // no auth writer: the caller sets the key as the declared parameter it also is
+		st.Auth = "none"
 	}
 	for i, p := range op.Params {
 		a, ok := override[p.Name]
@@ -1468,6 +1552,8 @@ func generate(c *drv.Ctx) {
 	genSessions(c, emit)
 	// (viii)-(xi) static query parameters, failing upload sources, connection re-use x chunked responses, concurrent batches
 	genRound3(c, emit)
+	// (xii)-(xiv) values spelling sibling placeholders, API keys that are also declared parameters, other Runtimes customised
+	genRound4(c, emit)
 	c.Extra["exhaustive_cases"] = n
 	// (iv) seeded random: single calls on the shared servers, and sessions on servers of their own
 	nr, ns := 1500, 400
